@@ -88,15 +88,15 @@ def _check_main(run, P):
     run.rule("C13.case", "the Fortran name path folds case before uniquifying",
              minimum=3)
     run.rule("C13.length", "the Fortran name path bounds identifier length", minimum=1)
-    _charset(run, P)
-    _prefix(run, P)
-    _memo(run, P)
-    _shared(run, P)
-    _refcount(run, P)
-    _no_consumer_cache(run, P)
-    _reserved(run, P)
-    _storage(run, P)
-    _case_length(run, P)
+    run.do(_charset, run, P)
+    run.do(_prefix, run, P)
+    run.do(_memo, run, P)
+    run.do(_shared, run, P)
+    run.do(_refcount, run, P)
+    run.do(_no_consumer_cache, run, P)
+    run.do(_reserved, run, P)
+    run.do(_storage, run, P)
+    run.do(_case_length, run, P)
 
 
 def _charset(run, P):
